@@ -452,6 +452,15 @@ let op_textrt (args : str list) : str list =
        | _ -> ["notparsed"])
   | _ -> ["bad-args"]
 
+(* the decidable check of C01_spelled_text_is_faithful on the tokens of a text: "<hex text>" -> 1|0 (the check), 1|0 (the tokens spell the text) *)
+let op_textok (args : str list) : str list =
+  match args with
+  | [h] ->
+      let t = text_of_hex h in
+      let u = List.map norm_tok (tokens_of (lex_items t)) in
+      [ (if text_ok u then "1" else "0"); (if spell_all u = t then "1" else "0") ]
+  | _ -> ["bad-args"]
+
 (* semantic rules on facts: one fact per argument (fields separated by ','; see harness op `facts`) ->
    one field per rule, "code@pos code@pos ..", in the order const_init const_not_fb global_const task enum_value fb_call stdlib *)
 let fact_of (w : str) : fact =
@@ -660,7 +669,7 @@ let op_lib2render (args : str list) : str list =
 
 let ops : (str * (str list -> str list)) list ref =
   ref [ ("lex", op_lex); ("semtok", op_semtok); ("decode", op_decode); ("lit", op_lit); ("cycle", op_cycle);
-        ("lsp", op_lsp); ("cli", op_cli); ("rule", op_rule); ("expr", op_expr); ("scope", op_scope); ("stmts", op_stmts); ("strender", op_strender); ("rules", op_rules); ("latebound", op_latebound); ("fbd", op_fbd); ("fbdrender", op_fbdrender); ("lib", op_lib); ("lib2", op_lib2); ("lib2render", op_lib2render); ("exprkind", op_exprkind); ("datadecl", op_datadecl); ("declrules", op_declrules); ("textrt", op_textrt) ]
+        ("lsp", op_lsp); ("cli", op_cli); ("rule", op_rule); ("expr", op_expr); ("scope", op_scope); ("stmts", op_stmts); ("strender", op_strender); ("rules", op_rules); ("latebound", op_latebound); ("fbd", op_fbd); ("fbdrender", op_fbdrender); ("lib", op_lib); ("lib2", op_lib2); ("lib2render", op_lib2render); ("exprkind", op_exprkind); ("datadecl", op_datadecl); ("declrules", op_declrules); ("textrt", op_textrt); ("textok", op_textok) ]
 
 
 let () =
